@@ -71,6 +71,11 @@ func genTrackPiece(r *rand.Rand, maxLen int) model.Piece {
 // end-of-track ticks. A refusal for N >= 2 is only acceptable when allowRefusal is set (pieces beyond
 // 2^28 ticks, where an idle track's delay cannot be encoded).
 func compareTracks(c *core.Ctx, stream string, i int, p model.Piece, ns []int, allowRefusal bool) bool {
+	return compareTracksEnv(c, stream, i, p, ns, allowRefusal, nil)
+}
+
+// compareTracksEnv is compareTracks with extra environment for the runs with N >= 2 (CPU counts).
+func compareTracksEnv(c *core.Ctx, stream string, i int, p model.Piece, ns []int, allowRefusal bool, env []string) bool {
 	sig := fmt.Sprintf("%s#%d", stream, i)
 	r1, out1 := playPiece(c, p, model.Flags{Track: 1}, writeOpts{})
 	if infra(c, r1) {
@@ -97,7 +102,7 @@ func compareTracks(c *core.Ctx, stream string, i int, p model.Piece, ns []int, a
 	for _, n := range append([]int{1}, ns...) {
 		fn := f1
 		if n > 1 {
-			rn, outn := playPiece(c, p, model.Flags{Track: n}, writeOpts{})
+			rn, outn := playPiece(c, p, model.Flags{Track: n}, writeOpts{env: env})
 			if infra(c, rn) {
 				return false
 			}
@@ -243,6 +248,24 @@ func checkC06(c *core.Ctx) {
 		}
 		if compareTracks(c, "long", i, p, ns, false) {
 			c.Nontrivial(fmt.Sprintf("long%d", i))
+		}
+	})
+	// far more tracks than notes or MIDI keys, on 1, 2, 3, 4, 7 CPUs and as many as the machine has ("for every N >= 1")
+	wide := []int{33, 63, 64, 65, 66, 100, 127, 128, 129, 130, 131, 200, 255, 256, 257, 1000, 4097}
+	cpus := []string{"", "1", "2", "3", "4", "7"}
+	c.Stream("wide", c.N(36, 17*6*3), func(i int, r *rand.Rand) {
+		p := genTrackPiece(r, 8)
+		if !p.Effective(model.Flags{}).AllInRange() || !p.TotalBelow(960, 1<<28) {
+			return
+		}
+		var env []string
+		if cp := cpus[i%len(cpus)]; cp != "" {
+			env = []string{"GOMAXPROCS=" + cp}
+		}
+		ns := []int{wide[(i/len(cpus))%len(wide)], wide[r.Intn(len(wide))], 2 + r.Intn(31)}
+		if compareTracksEnv(c, "wide", i, p, ns, false, env) {
+			c.Seen("cpu_counts", cpus[i%len(cpus)]+"/")
+			c.Nontrivial(fmt.Sprintf("wide%d", i))
 		}
 	})
 	// pieces longer than 2^28 ticks whose single deltas all fit: refusal is fine, a wrong file is not
